@@ -126,6 +126,7 @@ def r2(ctx):
     n0 = len(fmt_fields(packs[0].fmt)[1])
     ctx.check(pack_attrs[:n0] == ["isServer", "ctime", "seq", "ack"], "C03.R2", tb, "nonce fields are (direction, ctime, seq, ack)",
               "the nonce contains the direction identifier, the time and the sequence number", witness=pack_attrs[:n0])
+    c01.r2(_Sub(ctx, "C03.R2"))     # nonce/AAD slices at the seal and the open site
     fields = fmt_fields(packs[0].fmt)[1]
     ctx.check(fields[:3] == ["4s", "L", "H"], "C03.R2", tb, "nonce field widths: 4-byte id, 32-bit time, 16-bit seq", "widths", witness=fields)
 
@@ -188,7 +189,7 @@ def r4(ctx):
     ok = False
     if len(stores) == 1 and norm(stores[0].ast.value) == tvar and pvar:
         conds = cfg.conditions_of(stores[0].id)
-        only_pkt = [(norm(t), pol) for (t, pol) in conds if norm(t) not in (want,)]
+        only_pkt = [(norm(t), pol) for (t, pol) in conds if not ("self.last_send_time" in norm(t) and "self.send_interval" in norm(t))]
         ok = only_pkt == [(pvar, True)] or only_pkt == [("%s is not None" % pvar, True)] or only_pkt == [("%s is None" % pvar, False)]
     ctx.check(ok, "C03.R4", bp, "last_send_time := t0 exactly when a packet was built", "the rate cap measures from the last built packet",
               witness=[norm(s.ast) for s in stores])
